@@ -2,6 +2,7 @@ package props
 
 import (
 	"fmt"
+	"sync"
 	"time"
 
 	"github.com/elliotchance/gedcom/v39"
@@ -62,7 +63,7 @@ func init() {
 		Run:   c05Run,
 		Rule: "one case = one calendar year (all its days with both range-end flags, its 12 month-year dates, the year-only date, " +
 			"day->next-day pairs incl. the roll-over into the next year, (first day, partial, last day) triples) compared with an independent " +
-			"integer-day-number Gregorian calendar; plus batches of random ordered pairs of disjoint periods (IsBefore/IsAfter, and DateNodes.Minimum/Maximum over shuffled sets of 2-5 pairwise disjoint periods). thorough = all years 1..9999. " +
+			"integer-day-number Gregorian calendar; plus batches of random ordered pairs of disjoint periods (IsBefore/IsAfter, and DateNodes.Minimum/Maximum over shuffled sets of 2-5 pairwise disjoint periods); the same functions evaluated from 8 goroutines at once must give what one goroutine gives. thorough = all years 1..9999. " +
 			"non-trivial/distinct = each (day|month|year date) evaluated, counted by hash of its y-m-d",
 		Exhaustive: func(tier string) bool { return tier == "thorough" },
 		Floors: func(a *fw.Agg, tier string) []string {
@@ -328,4 +329,52 @@ func c05Pairs(c *fw.Ctx, k int) {
 		}
 	}
 	_ = k
+	// The same functions called from several goroutines at once (they are, by
+	// the matching pipeline and the publisher): every goroutine must get what
+	// a single goroutine gets. 8 goroutines x 400 dates, each date first
+	// evaluated alone.
+	type probe struct {
+		d     gedcom.Date
+		t     int64
+		years float64
+	}
+	lists := make([][]probe, 8)
+	for g := range lists {
+		for x := 0; x < 400; x++ {
+			y, m, d := c05RandDate(c.R)
+			dt := gedcom.Date{Day: d, Month: time.Month(m), Year: y, IsEndOfRange: c.R.Bool()}
+			lists[g] = append(lists[g], probe{dt, dt.Time().UnixNano() / 1000, dt.Years()})
+		}
+	}
+	type bad struct {
+		p     probe
+		t     int64
+		years float64
+	}
+	found := make(chan bad, 8)
+	var wg sync.WaitGroup
+	for g := range lists {
+		wg.Add(1)
+		go func(ps []probe) {
+			defer wg.Done()
+			for round := 0; round < 5; round++ {
+				for _, p := range ps {
+					if t, ys := p.d.Time().UnixNano()/1000, p.d.Years(); t != p.t || ys != p.years {
+						select {
+						case found <- bad{p, t, ys}:
+						default:
+						}
+						return
+					}
+				}
+			}
+		}(lists[g])
+	}
+	wg.Wait()
+	c.Count("parallel-evaluations", 8*400*5)
+	select {
+	case b := <-found:
+		c.Violation("parallel-evaluation-differs", fmt.Sprintf("Date%+v evaluated while 7 other goroutines evaluate other dates: Time()=%d us Years()=%v, alone: %d us / %v", b.p.d, b.t, b.years, b.p.t, b.p.years), []int{b.p.d.Year, int(b.p.d.Month), b.p.d.Day})
+	default:
+	}
 }
